@@ -427,7 +427,7 @@ func main() {
 	case "soname":
 		w = &gal.Writer{Dir: *out, Require: "From Apko Require Import Corr.C03.", Type: "so_case", Check: "check_so", Shard: 500}
 		ops := []string{"=", ">", "<", ">=", "<=", "~"}
-		sonames := []string{"so:libx.so.1", "so:libc.musl-x86_64.so.1", "so:libfoo.so.0.3"}
+		sonames := []string{"so:libx.so.1", "so:libc.musl-x86_64.so.1", "so:libfoo.so.0.3", "so:libstdc++.so.6"}
 		vers := []string{"1", "6", "1.2", "1.1", "2.0", "0.1.2", "1.2.3", "1.10"}
 		rels := []string{"", "-r0", "-r1", "-r3", "-r10"}
 		for _, op := range ops {
@@ -465,6 +465,7 @@ func main() {
 			cand("3.0", repos[1], "", true), cand("0.5", repos[2], "edge", false, "a=2.5"), cand("2.0-r0", repos[0], "", false)}
 		inst := cand("2.0", repos[0], "", false)
 		instOther := cand("2.0", repos[2], "", false)
+		instDq := cand("3.0", repos[1], "", false) // the installed package is the disqualified candidate: dq still removes it (mutation s6-m1)
 		for _, op := range append([]string{""}, ops...) {
 			cv := "2.0"
 			if op == "" {
@@ -477,6 +478,7 @@ func main() {
 			fltlCase(w, "a", op, cv, "", "", &inst, base, true, "corpus")
 			fltlCase(w, "a", op, cv, "", "", &instOther, base, true, "corpus")
 			fltlCase(w, "a", op, cv, "testing", "", &inst, base, true, "corpus")
+			fltlCase(w, "a", op, cv, "", "", &instDq, base, true, "corpus")
 		}
 		fltlCase(w, "a", "=", "notaversion", "edge", "local", nil, base, false, "corpus")
 		fltlCase(w, "a", "=", "notaversion", "", "", nil, []apk.VerifFilterCandidate{cand("1", repos[0], "edge", false), cand("1", repos[0], "", true)}, false, "corpus")
@@ -547,7 +549,7 @@ func main() {
 		names := []string{"a", "foo-bar", "so:libc.so.6", "cmd:x", "pc:y+z", "py3.11-foo", "a.b_c"}
 		ops := []string{"=", ">", "<", ">=", "<=", "~"}
 		w = &gal.Writer{Dir: *out, Require: "From Apko Require Import Corr.C03.", Type: "res_case", Check: "check_res", Shard: 500}
-		for _, s := range []string{"", "a", "a=", "a==1", "a=1@", "a@", "@x", "=1", "a=1@e@f", "a>=1@edge", "a=>1", "a~=1", "a<>1", "a=1=2", "a b=1", "a=1 ", "so:=1", "so:x=", "so:x=1-r", "so:x=1-r1", "so:x=1-r1x", "so:x=a=b", "a=1@e-f", "a@e=1", "é=1", "a=\n1"} {
+		for _, s := range []string{"", "a", "a=", "a==1", "a=1@", "a@", "@x", "=1", "a=1@e@f", "a>=1@edge", "a=>1", "a~=1", "a<>1", "a=1=2", "a b=1", "a=1 ", "so:=1", "so:x=", "so:x=1-r", "so:x=1-r1", "so:x=1-r1x", "so:x=a=b", "so:x>=1", "so:x<=1-r2", "so:x>1", "so:x~1", "so:x~=1", "so:x=>1", "so:x==1", "so:x=1@edge", "so:x=1-r1@edge", "so:x>=1@edge", "so:libstdc++.so.6>=6.0.33", "so:=", "so:>=1", "sox=1", "a=1@e-f", "a@e=1", "é=1", "a=\n1"} {
 			resCase(w, s, "corpus")
 		}
 		for i := 0; i < 800*scale; i++ {
